@@ -101,8 +101,11 @@ def g_any(r, depth=0):
 
 def g_data(r):
     rows = []
+    # measure values are small, or integral values of the size of ids / epoch seconds (still far below 1e15)
+    base = r.choice([0, 0, 0, 100000000, 5000000000, 123456789012])
     for _ in range(r.randint(0, 5)):
-        rows.append(['o', [['a', ['n', r.choice([1, 2, 3, 1.5])]], ['b', ['s', r.choice(['x', 'y', 'C:\\'])]], ['c', ['n', r.choice(INTS[:8])]]]])
+        a = r.choice([1, 2, 3, 1.5]) if base == 0 else base + r.choice([0, 1, 2, 3, 7])
+        rows.append(['o', [['a', ['n', a]], ['b', ['s', r.choice(['x', 'y', 'C:\\'])]], ['c', ['n', r.choice(INTS[:8])]]]])
     return ['a', rows]
 
 
@@ -141,7 +144,7 @@ def typed_arg(r, sp, first_len):
     if t == 'object':
         if name == 'aggregation':
             return ['o', [['categories', ['a', [['s', 'b']]]],
-                          ['measures', ['a', [['o', [['field', ['s', 'a']], ['function', ['s', r.choice(['sum', 'count', 'average', 'max'])]]]]]]]]]
+                          ['measures', ['a', [['o', [['field', ['s', 'a']], ['function', ['s', r.choice(['sum', 'count', 'average', 'max', 'min', 'stddev'])]]]]]]]]]
         return g_object(r)
     if t == 'boolean':
         return ['b', r.random() < 0.5]
